@@ -26,7 +26,7 @@ use std::str::FromStr;
 use std::time::Duration;
 use tempfile::sim as tsim;
 
-pub const RULE: &str = "Each run draws from one tape: 1-2 modules with benign names (spaces, dots, unicode, Windows/POSIX directories before the leaf; optionally without debug info so that the code-id redirect lookup runs), 1-3 supplier instances sharing cache/ and tmp/, 1-2 server URLs, a per-request server behaviour (200 with a body in tape-chosen chunks and delays | 404 | 500 | connect error | body reset after k bytes | clean EOF after k bytes | corrupt body | body without final newline | stall until the client's timeout fires), per task an optional cancellation after c polls with optional retry, a pre-existing cache entry (none | good | corrupt | a directory at the entry path), tmp/ missing, cache parent blocked by a file, temp-file faults (ENOSPC/EIO on create, short write, EINTR, torn write + ENOSPC, persist failure) and a rival process committing the same entry at the persist seam or mid-download. The invariant (every regular file under cache/ is a permitted complete entry, tmp/ holds only live temp files) is evaluated at every temp-file call and after every executor step; at the end every new entry is reloaded through a fresh supplier with no network. NON-TRIVIAL iff at least one download delivered at least one body chunk and at least one fault, cut, cancellation, rival action or second instance occurred. DISTINCT = distinct (world, decision trace) digests among non-trivial runs.";
+pub const RULE: &str = "Each run draws from one tape: 1-2 modules with benign names (spaces, dots, unicode, Windows/POSIX directories before the leaf; optionally without debug info so that the code-id redirect lookup runs), 1-3 supplier instances sharing cache/ and tmp/, 1-2 server URLs, a per-request server behaviour (200 with a body in tape-chosen chunks and delays | 404 | 5xx/403, each without a body, with an HTML page or with a body that is a perfectly good file | connect error | body reset after k bytes | clean EOF after k bytes | corrupt body | body without final newline | stall until the client's timeout fires), per task an optional cancellation after c polls with optional retry, a pre-existing cache entry (none | good | corrupt | a directory at the entry path), tmp/ missing, cache parent blocked by a file, temp-file faults (ENOSPC/EIO on create, short write, EINTR, torn write + ENOSPC, persist failure) and a rival process committing the same entry at the persist seam or mid-download; binary / debug-file lookups that miss fall through to Mozilla's CAB variant of the URL (feature mozilla_cab_symbols is compiled in), answered with a generated cabinet archive (stored | MSZIP; the wanted member alone, behind a directory prefix, among others, twice, or missing) under the same server behaviours. The invariant (every regular file under cache/ is a permitted complete entry — from a 2xx response only —, an entry once there is only ever taken away by the persist step of a commit replacing it, tmp/ holds only live temp files) is evaluated at every temp-file call and after every executor step; at the end every new entry is reloaded through a fresh supplier with no network. NON-TRIVIAL iff at least one download delivered at least one body chunk and at least one fault, cut, cancellation, rival action or second instance occurred. DISTINCT = distinct (world, decision trace) digests among non-trivial runs.";
 
 const DEBUG_IDS: [&str; 2] = ["5A9832E5287241C1838ED98914E9B7FF1", "0123456789ABCDEF0123456789ABCDEF2"];
 
@@ -152,6 +152,8 @@ struct Model {
     /// rel paths of binary / debug-file entries (fetch_lookup): url path -> rel
     file_rels: BTreeMap<String, String>,
     sym_urls: BTreeMap<String, usize>, // url-without-query -> module index
+    /// Mozilla's CAB variant of a file URL (last character replaced by '_') -> rel
+    cab_rels: BTreeMap<String, String>,
     rival_pending: Option<(String, Vec<u8>)>,
     /// rel paths that were seen holding a permitted entry at some check point
     established: BTreeSet<String>,
@@ -174,6 +176,7 @@ impl Model {
         let snaps = reqwest::sim::snapshots();
         // a .sym entry: delivered ++ trailer of a clean, parseable download of this rel
         let mut any_for_rel = false;
+        let mut from_error_response = false;
         for s in &snaps {
             let base = url_without_query(&s.info.url);
             if let Some(&mi) = self.sym_urls.get(&base) {
@@ -182,6 +185,12 @@ impl Model {
                 }
                 any_for_rel = true;
                 if !s.saw_eof {
+                    continue;
+                }
+                if !matches!(s.head_code, Some(200..=299)) {
+                    if !s.delivered.is_empty() && content.starts_with(&s.delivered) {
+                        from_error_response = true;
+                    }
                     continue;
                 }
                 let trailer = format!("INFO URL {}\n", s.info.url);
@@ -198,11 +207,33 @@ impl Model {
                     }
                     return Err("the entry holds a download whose content does not parse");
                 }
+            } else if let (Some(r), false) = (self.cab_rels.get(&base), self.file_rels.contains_key(&base)) {
+                if r != rel {
+                    continue;
+                }
+                any_for_rel = true;
+                if !s.saw_eof {
+                    continue;
+                }
+                let leaf = rel.rsplit('/').next().unwrap_or(rel);
+                if unpack_cab_reference(&s.delivered, leaf).iter().any(|c| c == content) {
+                    if matches!(s.head_code, Some(200..=299)) {
+                        probe("e3.cab_entry_permitted");
+                        return Ok(());
+                    }
+                    from_error_response = true;
+                }
             } else if let Some(r) = self.file_rels.get(&base) {
                 if r != rel {
                     continue;
                 }
                 any_for_rel = true;
+                if !matches!(s.head_code, Some(200..=299)) {
+                    if s.saw_eof && content == &s.delivered[..] {
+                        from_error_response = true;
+                    }
+                    continue;
+                }
                 if s.saw_eof && content == &s.delivered[..] {
                     return Ok(());
                 }
@@ -210,6 +241,9 @@ impl Model {
         }
         if !any_for_rel {
             return Err("a file appeared at a cache path nobody downloaded");
+        }
+        if from_error_response {
+            return Err("the entry holds the body of an HTTP error response");
         }
         // classify for a stable signature
         for s in &snaps {
@@ -298,6 +332,88 @@ fn good_entry(m: &ModSpec) -> Vec<u8> {
     v
 }
 
+/// A cabinet archive for `leaf`: the wanted file alone, behind a directory prefix, next to other
+/// files, twice (the first match is what the client unpacks), missing, or empty; stored or MSZIP.
+fn build_cab(leaf: &str) -> Vec<u8> {
+    use std::io::Write;
+    let blob = simkit::blob("e3.cab.blob", range("e3.cab.len", 0, 3000) as usize);
+    let other = simkit::blob("e3.cab.other", range("e3.cab.other_len", 0, 500) as usize);
+    let ctype = if chance("e3.cab.mszip", 1, 2) { cab::CompressionType::MsZip } else { cab::CompressionType::None };
+    let shape = ch("e3.cab.shape", 6);
+    let names: Vec<(String, &[u8])> = match shape {
+        0 => vec![(leaf.to_string(), &blob)],
+        1 => vec![(format!("dir\\{leaf}"), &blob)],
+        2 => vec![("readme.txt".to_string(), &other), (leaf.to_string(), &blob)],
+        3 => vec![(format!("a\\{leaf}"), &blob), (leaf.to_string(), &other)],
+        4 => vec![("unrelated.bin".to_string(), &other)],
+        _ => vec![],
+    };
+    if shape == 4 || shape == 5 {
+        probe("e3.cab_without_file");
+    }
+    let mut b = cab::CabinetBuilder::new();
+    if !names.is_empty() {
+        let f = b.add_folder(ctype);
+        for (n, _) in &names {
+            f.add_file(n.clone());
+        }
+    }
+    let mut w = match b.build(std::io::Cursor::new(Vec::new())) {
+        Ok(w) => w,
+        Err(_) => return b"MSCF not really".to_vec(),
+    };
+    let mut i = 0;
+    while let Ok(Some(mut fw)) = w.next_file() {
+        let _ = fw.write_all(names[i].1);
+        i += 1;
+    }
+    match w.finish() {
+        Ok(c) => c.into_inner(),
+        Err(_) => b"MSCF not really".to_vec(),
+    }
+}
+
+/// What a complete archive holds for `leaf`: the content of every member whose name ends with
+/// the leaf (the client takes the first; which one it takes is not C16's business, that the
+/// entry is one of them, whole, is).
+fn unpack_cab_reference(archive: &[u8], leaf: &str) -> Vec<Vec<u8>> {
+    use std::io::Read;
+    let Ok(mut cab) = cab::Cabinet::new(std::io::Cursor::new(archive)) else { return vec![] };
+    let mut names = Vec::new();
+    for folder in cab.folder_entries() {
+        for file in folder.file_entries() {
+            if file.name().ends_with(leaf) {
+                names.push(file.name().to_string());
+            }
+        }
+    }
+    let mut out = Vec::new();
+    for n in names {
+        let mut v = Vec::new();
+        if let Ok(mut r) = cab.read_file(&n) {
+            if r.read_to_end(&mut v).is_ok() {
+                out.push(v);
+            }
+        }
+    }
+    out
+}
+
+/// An HTTP error response: without a body, with an HTML page, or — the worst case for a client
+/// that does not look at the status — with a body that is a perfectly good file.
+fn error_plan(code: u16, good_body: &[u8]) -> Plan {
+    let mut p = Plan::status(code);
+    match ch("e3.srv.err_body", 3) {
+        0 => {}
+        1 => {
+            probe("e3.error_with_good_body");
+            p.body = good_body.to_vec();
+        }
+        _ => p.body = format!("<html><body><h1>{code}</h1>\n<p>no such object</p></body></html>\n").into_bytes(),
+    }
+    p
+}
+
 fn draw_plan_for(body: &[u8], allow_stall: bool) -> (Plan, &'static str) {
     let kind = ch("e3.srv.kind", 12);
     let mut label = "200 full";
@@ -305,11 +421,11 @@ fn draw_plan_for(body: &[u8], allow_stall: bool) -> (Plan, &'static str) {
         0..=4 => Plan::ok(body.to_vec()),
         5 => {
             label = "404";
-            Plan::status(404)
+            error_plan(404, body)
         }
         6 => {
             label = "500";
-            Plan::status([500u16, 503, 403][ch("e3.srv.5xx", 3) as usize])
+            error_plan([500u16, 503, 403][ch("e3.srv.5xx", 3) as usize], body)
         }
         7 => {
             label = "connect error";
@@ -352,7 +468,7 @@ fn draw_plan_for(body: &[u8], allow_stall: bool) -> (Plan, &'static str) {
                 p
             } else {
                 label = "503";
-                Plan::status(503)
+                error_plan(503, body)
             }
         }
     };
@@ -501,6 +617,10 @@ fn install_transport(world: &World, model: &Rc<RefCell<Model>>) {
                         if let Ok(u) = base_url.join(&l.server_rel) {
                             m.file_rels.insert(u.as_str().to_string(), l.cache_rel.clone());
                         }
+                        let cl = breakpad_symbols::moz_lookup(l.clone());
+                        if let Ok(u) = base_url.join(&cl.server_rel) {
+                            m.cab_rels.insert(u.as_str().to_string(), l.cache_rel.clone());
+                        }
                     }
                 }
             }
@@ -511,9 +631,9 @@ fn install_transport(world: &World, model: &Rc<RefCell<Model>>) {
     let allow_stall = true;
     reqwest::sim::install(move |info: &RequestInfo| {
         let base = url_without_query(&info.url);
-        let (sym_mod, is_file) = {
+        let (sym_mod, is_file, cab_rel) = {
             let m = model2.borrow();
-            (m.sym_urls.get(&base).copied(), m.file_rels.contains_key(&base))
+            (m.sym_urls.get(&base).copied(), m.file_rels.contains_key(&base), m.cab_rels.get(&base).cloned())
         };
         if let Some(mi) = sym_mod {
             if !info.follows_redirects {
@@ -529,6 +649,15 @@ fn install_transport(world: &World, model: &Rc<RefCell<Model>>) {
                 _ => {}
             }
             simkit::log_line(|| format!("server: {} for {}", label, info.url));
+            return plan;
+        }
+        if let (Some(rel), false) = (cab_rel, is_file) {
+            // Mozilla's CAB-compressed variant of a binary / debug file
+            probe("e3.cab_request");
+            let leaf = rel.rsplit('/').next().unwrap_or(&rel).to_string();
+            let archive = build_cab(&leaf);
+            let (plan, label) = draw_plan_for(&archive, allow_stall);
+            simkit::log_line(|| format!("server: {} for cabinet {}", label, info.url));
             return plan;
         }
         if is_file {
@@ -687,6 +816,7 @@ fn run_inner(c12_files: bool) -> Outcome {
         fs_checks: 0,
         file_rels: BTreeMap::new(),
         sym_urls: BTreeMap::new(),
+        cab_rels: BTreeMap::new(),
         rival_pending: None,
         established: BTreeSet::new(),
         persist_failed: BTreeSet::new(),
